@@ -161,7 +161,7 @@ class Step(t.NamedTuple):
 def gen_step(model, rels: list[Relation], rng: random.Random, weights: dict[str, int] | None = None) -> Step:
     """Pick one operation. `run` performs it on the implementation (may raise)."""
     w = {"create": 4, "delitem": 3, "insert": 3, "setitem": 1, "append": 2, "remove": 2, "setattr": 2, "clear": 1,
-         "create_clash": 1, "create_nested": 2, "delete_referenced": 2, "role_set": 2, "move_over_placeholder": 2}
+         "create_clash": 1, "create_nested": 2, "delete_referenced": 2, "role_set": 2, "move_over_placeholder": 2, "assign": 0}
     if weights:
         w.update(weights)
     for _ in range(50):
@@ -216,6 +216,13 @@ def gen_step(model, rels: list[Relation], rng: random.Random, weights: dict[str,
                 kw["no_such_attribute_xyz"] = 1
             return Step("create_nested", rel, {"kw": {"name": "outer", attr: f"NewObject({hint})"}, "uuid": inner, "bad": fail},
                         lambda lst=lst, kw=kw: lst.create(**kw))
+        if op == "assign" and rel.contain and n >= 2 and type(rel.acc).__name__ != "RoleTagAccessor":
+            # whole-list assignment: a random sub-sequence of the members in random order, sometimes with one moved-in object
+            members = list(lst)
+            keep = rng.sample(members, rng.randrange(1, n + 1))
+            rng.shuffle(keep)
+            return Step("assign", rel, {"new_uuids": [m.uuid for m in keep]},
+                        lambda rel=rel, keep=keep: setattr(rel.owner, rel.attr, keep))
         if op == "move_over_placeholder":
             # fragmented layouts only: move an element that has a fragment placeholder somewhere below it
             from capellambse.model import _obj as O
